@@ -1,6 +1,6 @@
 (* C07 -- property theorems only.  Proofs live in C07/Proofs*.v. *)
 From Coq Require Import NArith List Bool Arith.
-From DV Require Import Base.Outcome Base.Bytes C07.Gen C07.Model C07.Proofs C07.Proofs2 C07.Proofs3 C07.Proofs4 C07.Proofs5 C07.Proofs6 C07.Proofs7 C07.Proofs8 C07.Proofs9 C07.Proofs10.
+From DV Require Import Base.Outcome Base.Bytes C07.Gen C07.Model C07.Proofs C07.Proofs2 C07.Proofs3 C07.Proofs4 C07.Proofs5 C07.Proofs6 C07.Proofs7 C07.Proofs8 C07.Proofs9 C07.Proofs10 C07.Proofs11.
 Import ListNotations.
 Local Open Scope N_scope.
 
@@ -364,7 +364,7 @@ Theorem C07_schema_matches_source :
                     | Some fs => if list_eq_dec N.eq_dec (map field_code fs) (snd x) then true else false
                     | None => true end) type_scans = true
   /\ forallb (fun rt => match schema rt with Some _ => existsb (fun x => fst x =? rt) type_scans | None => false end)
-       [1; 2; 3; 4; 5; 6; 7; 8; 9; 12; 13; 14; 15; 16; 17; 33; 35; 39; 44; 52; 61] = true.
+       [1; 2; 3; 4; 5; 6; 7; 8; 9; 12; 13; 14; 15; 16; 17; 33; 35; 39; 44; 51; 52; 61] = true.
 Proof. exact schema_matches_source. Qed.
 Print Assumptions C07_schema_matches_source.
 
@@ -492,3 +492,45 @@ Theorem C07_reader_total : forall file,
   match snd (read_file file) with EEof | EErr _ => True | _ => False end.
 Proof. exact reader_total. Qed.
 Print Assumptions C07_reader_total.
+
+Theorem C07_escape2_table : forall c t, c < 256 -> negb ((48 <=? c) && (c <=? 57)) = true ->
+  sym_at (esc_char :: c :: t) = escape2_spec c.
+Proof. exact escape2_table. Qed.
+Print Assumptions C07_escape2_table.
+
+Theorem C07_escape4_table : forall a b c t, a < 10 -> b < 10 -> c < 10 ->
+  sym_at (esc_char :: 48 + a :: 48 + b :: 48 + c :: t) = escape4_spec a b c.
+Proof. exact escape4_table. Qed.
+Print Assumptions C07_escape4_table.
+
+Theorem C07_parsed_stops_at_error : parsed_stops_at_error = true.
+Proof. exact parsed_stops. Qed.
+Print Assumptions C07_parsed_stops_at_error.
+
+Theorem C07_parsed_total : forall file,
+  match snd (parsed_file file) with EEof | EErr _ => True | _ => False end.
+Proof. exact parsed_total. Qed.
+Print Assumptions C07_parsed_total.
+
+Theorem C07_parsed_reads_on_refuted : parsed_stops_at_error = false -> snd (parsed_file [41; 10]) = EFuel.
+Proof. exact parsed_reads_on_refuted. Qed.
+Print Assumptions C07_parsed_reads_on_refuted.
+
+Theorem C07_convert_token_protocol : forall (St : Type) process tail_data (SI : St -> Prop) (credit : St -> nat),
+  (forall h sym, SI h ->
+     good (fun x => SI (fst x) /\ (credit (fst x) + length (snd x) <= credit h + 1)%nat) (process h sym)) ->
+  (forall h, SI h -> good (fun d => (length d <= credit h)%nat) (tail_data h)) ->
+  forall init s, SI init -> credit init = 0%nat -> PInv s ->
+  good (fun rs => PInv (snd rs)) (convert_token St process tail_data init s).
+Proof. exact convert_token_good. Qed.
+Print Assumptions C07_convert_token_protocol.
+
+Theorem C07_nsec3_converters_protocol : forall s, PInv s ->
+  good (fun rs => PInv (snd rs)) (convert_token_salt s) /\ good (fun rs => PInv (snd rs)) (convert_token_hash s).
+Proof. intros s H. split; [exact (convert_token_salt_good s H) | exact (convert_token_hash_good s H)]. Qed.
+Print Assumptions C07_nsec3_converters_protocol.
+
+Theorem C07_rtype_bitmap_loop_protocol : forall fuel s, PInv s -> (length (buf s) - start s < fuel)%nat ->
+  good PInv (while_ascii fuel s).
+Proof. exact while_ascii_good. Qed.
+Print Assumptions C07_rtype_bitmap_loop_protocol.
